@@ -275,4 +275,51 @@ PROPS = {
         "quick": box(16, 500, 25, floor_evaluations=200, floor_shapes=20),
         "thorough": box(16, 12000, 420, floor_evaluations=2000, floor_shapes=40),
     },
+    "C14": {
+        "level": "exploration",
+        "technique": "runtime monitoring: differential oracle (same seeded run in a clean and in a "
+                     "polluted directory under the virtual clock) + before/after snapshot of the "
+                     "foreign files (bytes, inode, mtime, mode, existence)",
+        "level_text": "Held on the executions explored: for 14 classes of near-miss names derived "
+                      "from the family language (each verified foreign by the independent parser), "
+                      "all namings, cleanup strategies incl. compression, histories with rotations "
+                      "and restarts: no foreign file changes in any observable way, and family "
+                      "files, existing_log_files results (5 selectors, queried every 4 ops) and "
+                      "operation results are identical to the clean run; no panic.",
+        "level_note": "Trusted: family parser (decides what is foreign), virtual clock (identical "
+                      "names in both runs). One near-miss class per case so that a violation is "
+                      "attributable.",
+        "rule": "cases = seeded (naming, name parts, cleanup, criterion, near-miss class, history) "
+                "pairs of runs; non-trivial iff at least one foreign file exists and at least 2 "
+                "family files were produced; distinct = (naming, cleanup, class, name-part mask)",
+        "assumptions": COMMON_ASSUMPTIONS,
+        "quick": box(16, 400, 25, floor_evaluations=200, floor_shapes=20),
+        "thorough": box(16, 12000, 420, floor_evaluations=2000, floor_shapes=50),
+    },
+    "C16": {
+        "level": "exploration",
+        "technique": "runtime monitoring: documented name composition and selector semantics "
+                     "evaluated against the directory after every operation (re-queried after "
+                     "virtual clock steps), symlink target vs. the file holding the latest record, "
+                     "FileSpec::try_from round trip with a logger built from it",
+        "level_text": "Held on the executions explored: every file created is in the configured "
+                      "directory and parses as [basename][_discr][_starttime][_infix][.suffix] "
+                      "(start time stable while the clock advances); existing_log_files equals the "
+                      "directory for 7 selector combinations at every step; read_link(symlink) "
+                      "resolves to the file that received the latest record; try_from(p) denotes p "
+                      "(up to a leading './') and a logger built from it writes there, for relative "
+                      "(own cwd) and absolute paths.",
+        "level_note": "Trusted: family parser / selector semantics from the docs. Not judged: "
+                      "LogfileSelector::none() without rotation, queries before the first write of "
+                      "a run (lazy file creation), restarts when the start-time part is used (a new "
+                      "logger legitimately has a new start time).",
+        "rule": "3 of 4 cases are naming/listing/symlink histories, 1 of 4 a try_from path; "
+                "non-trivial iff at least one listing query (or the try_from path) was evaluated; "
+                "distinct = (driver level, naming, name-part mask, cleanup, symlink, clock advanced) "
+                "resp. (absolute/relative, path shape)",
+        "assumptions": COMMON_ASSUMPTIONS + ["the try_from cases change the process' working "
+                                             "directory (cases of a shard run sequentially)"],
+        "quick": box(16, 500, 25, floor_evaluations=200, floor_shapes=20),
+        "thorough": box(16, 12000, 420, floor_evaluations=2000, floor_shapes=50),
+    },
 }
